@@ -151,3 +151,15 @@ Theorem C11_source_impl_bounds :
   bounds_of "unsafe Unflatten<T,NM,N> for &GenericArray<T,NM>" = Some ["N:ArrayLength"; "NM:ArrayLength"; "NM:Div<N>"; "Quot<NM,N>:ArrayLength"] /\
   bounds_of "unsafe Unflatten<T,NM,N> for &mutGenericArray<T,NM>" = Some ["N:ArrayLength"; "NM:ArrayLength"; "NM:Div<N>"; "Quot<NM,N>:ArrayLength"].
 Proof. repeat split. Qed.
+
+(* ---- T1: what the traits of this property declare in the source now (coq/gen/GenSigs.v gen_trait_headers):
+        the result length of flatten is Prod<N,M> and of unflatten Quot<NM,N> in the trait itself, under exactly these bounds ---- *)
+From Coq Require Import String.
+From GA Require Import SigDefs.
+From GAGen Require Import GenSigs.
+Local Open Scope string_scope.
+
+Theorem C11_source_trait_headers :
+  trait_header_of "pub unsafe trait Flatten<T,N,M>" = Some ["N:ArrayLength"; "N:Mul<M>"; "Prod<N,M>:ArrayLength"; "Self:GenericSequence<GenericArray<T,N>,Length=M>"; "fn flatten (self) -> Self :: Output"; "type Output:GenericSequence<T,Length=Prod<N,M>>"] /\
+  trait_header_of "pub unsafe trait Unflatten<T,NM,N>" = Some ["N:ArrayLength"; "NM:ArrayLength"; "NM:Div<N>"; "Quot<NM,N>:ArrayLength"; "Self:GenericSequence<T,Length=NM>"; "fn unflatten (self) -> Self :: Output"; "type Output:GenericSequence<GenericArray<T,N>,Length=Quot<NM,N>>"].
+Proof. repeat split. Qed.
